@@ -127,10 +127,11 @@ CHECKS["C02"] = dict(
         dict(pkg="internal/cc", entry="HC02AdapterTWCC", params=dict(kind=0)),
         dict(pkg="internal/cc", entry="HC02AdapterTWCC", params=dict(kind=1, pad=0)),
         dict(pkg="internal/cc", entry="HC02AdapterTWCC", params=dict(kind=1, pad=1)),
-    ],
-    bounds=dict(quick="structurally inconsistent but parseable TWCC feedback (status count 0..4, run length 0..12 beyond the count, 7-symbol vector chunks with received padding, exactly the deltas rtcp.Unmarshal would produce) through rtpfb.convertTWCC and the gcc FeedbackAdapter; every index/nil/slice operation is an implicit assertion; a well-formed probe feedback afterwards",
+    ] + [dict(pkg="internal/verifchain", entry="HC02RawRTP", params=dict(kind=k, len=L), flags=["-unwind", "1200"], require_covers=["untrusted packet handled"])
+         for (k, L) in ((3, 16), (5, 16), (6, 16), (7, 16), (3, 20), (5, 20))],
+    bounds=dict(quick="structurally inconsistent but parseable TWCC feedback (status count 0..4, run length 0..12 beyond the count, 7-symbol vector chunks with received padding, exactly the deltas rtcp.Unmarshal would produce) through rtpfb.convertTWCC and the gcc FeedbackAdapter; every index/nil/slice operation is an implicit assertion; a well-formed probe feedback afterwards. Raw RTP: ANY byte string of 16 bytes (20 for the NACK generator and report receiver) (all bytes symbolic except that the sequence-number field is within 8 of the probe packet's) with any reported length n <= that size (stale bytes beyond n symbolic too) through the BindRemoteStream reader of the NACK generator, report receiver, TWCC sender and RFC 8888 sender (real rtp.Header.Unmarshal from SSA), then a well-formed packet",
                 thorough="same"),
-    outside=["raw RTP/RTCP byte strings through Attributes.GetRTPHeader/GetRTCPPackets (rtp/rtcp Unmarshal on symbolic buffers)", "outgoing packet sizes", "other readers (see DESIGN)"],
+    outside=["raw RTCP byte strings (rtcp.Unmarshal on symbolic buffers)", "RTP buffers longer than 16-20 bytes (28 bytes did not finish in 20 min: CSRC/extension parsing paths)", "outgoing packet sizes 0..65535", "stats, packetdump, jitter buffer, flexfec, pacers, nack responder RTCP reader"],
     assumptions=["the unmarshal post-condition P_U used to build the structured feedback (DESIGN.md C02)"],
 )
 
@@ -168,7 +169,7 @@ CHECKS["C05"] = dict(
 
 CHECKS["C16"] = dict(
     jobs=[
-        dict(pkg="pkg/gcc", entry="HC16Publish", require_covers=["callback fired", "loss controller has adapted"]),
+        dict(pkg="pkg/gcc", entry="HC16Publish", require_covers=["callback fired", "loss controller has adapted", "changed without callback"]),
         dict(pkg="pkg/gcc", entry="HC16RateStep", require_covers=["step", "stats written"], tiers=["thorough"], thorough=dict(timeout=3000)),
     ],
     level_note="PARTIAL CLAIM: only the integer envelope of the estimator (clamps, min, publication to getter/pacer/callback) from arbitrary controller states; nothing about estimator quality, the Kalman/threshold/EMA numerics, liveness of the channel pipeline or Close. Trusted: go/ssa, gosym, z3/cvc5.",
@@ -179,9 +180,11 @@ CHECKS["C16"] = dict(
 )
 
 CHECKS["C01"] = dict(
-    jobs=[dict(pkg="internal/verifchain", entry="HC01Chain", params=dict(members=8), flags=["-unwind", "1200"],
-               require_covers=["write error injected", "read error injected", "packet read", "close error"])],
-    bounds=dict(quick="every ordered pair (64) of {NoOp, TWCC header extension, NACK responder, NACK generator, report sender, report receiver, TWCC sender, RFC 8888 sender} built by their factories with default options, behind counting proxies; 2 outgoing packets (symbolic timestamp/marker/payload of 0..3 symbolic bytes, sequence numbers 65535 and 0) with a downstream write error injected at either or no position; one incoming packet of 12..16 bytes (fixed first byte 0x80, 15 symbolic bytes) or a failing read; Unbind of both streams, Close with symbolic Close errors per member; loop goroutines run in the cooperative thread model (no ticker fires)",
+    jobs=[dict(pkg="internal/verifchain", entry="HC01Chain", params=dict(members=8, nested=0), flags=["-unwind", "1200"],
+               require_covers=["write error injected", "read error injected", "packet read", "close error"]),
+          dict(pkg="internal/verifchain", entry="HC01Chain", params=dict(members=3, nested=1), flags=["-unwind", "1200"],
+               require_covers=["close error", "nested close error"])],
+    bounds=dict(quick="every ordered pair (64) of {NoOp, TWCC header extension, NACK responder, NACK generator, report sender, report receiver, TWCC sender, RFC 8888 sender} built by their factories with default options, behind counting proxies; 2 outgoing packets (symbolic timestamp/marker/payload of 0..3 symbolic bytes, sequence numbers 65535 and 0) with a downstream write error injected at either or no position; one incoming packet of 12..16 bytes (fixed first byte 0x80, 15 symbolic bytes) or a failing read; Unbind of both streams, Close with symbolic Close errors per member; for pairs of the first 3 kinds additionally with the second member wrapped in a nested chain together with a third failing member; loop goroutines run in the cooperative thread model (no ticker fires)",
                 thorough="same"),
     outside=["chains longer than 2", "rtpfb, stats, packetdump, intervalpli, flexfec, cc interceptors and the buffering ones", "ticker-driven feedback interleaved with traffic", "RTCP traffic through the chain", "non-default options", "header shapes with CSRC/extensions on the outgoing side"],
     assumptions=["cooperative threads: goroutines run only when the caller blocks or yields", "time.NewTicker channels never fire unless the harness says so", "pion/logging is a no-op", "rand sources nondeterministic"],
@@ -208,11 +211,12 @@ CHECKS["C13"] = dict(
 )
 
 CHECKS["C11"] = dict(
-    jobs=[dict(pkg="internal/verifchain", entry="HC11Lifecycle", params=dict(kind=k), flags=["-unwind", "1200"], require_covers=["traffic after close returned", "rebind"]) for k in range(8)],
+    jobs=[dict(pkg="internal/verifchain", entry="HC11Lifecycle", params=dict(kind=k), flags=["-unwind", "1200"], require_covers=["traffic after close returned", "rebind"]) for k in range(8)]
+       + [dict(pkg="internal/verifchain", entry="HC11ReadThenClose", params=dict(kind=k), flags=["-unwind", "1200"], require_covers=["closed", "writer bound"], no_native=True) for k in (3, 5, 6, 7)],
     level_note="PARTIAL CLAIM: lifecycle sequences are issued by one harness thread; the interceptor's own goroutines run in a cooperative model (they run when the caller blocks or yields; every select choice is explored), i.e. schedules at synchronisation granularity, not pre-emptive interleavings; 'promptly' is read as 'returns' (a call that can never return is reported as 'all goroutines blocked'). Close racing with traffic from another goroutine is not explored.",
-    bounds=dict(quick="each of {NoOp, TWCC header extension, NACK responder, NACK generator, report sender, report receiver, TWCC sender, RFC 8888 sender}: BindRTCPWriter (writer failing nondeterministically), BindLocalStream, BindRemoteStream, BindRTCPReader; optional traffic (one write, one read of a well-formed TWCC-tagged packet, one failing RTCP read); optional Unbind+Bind of the same SSRCs with traffic; Close; the same traffic after Close; Unbind after Close",
+    bounds=dict(quick="each of {NoOp, TWCC header extension, NACK responder, NACK generator, report sender, report receiver, TWCC sender, RFC 8888 sender}: BindRTCPWriter (writer failing nondeterministically), BindLocalStream, BindRemoteStream, BindRTCPReader; optional traffic (one write, one read of a well-formed TWCC-tagged packet, one failing RTCP read); optional Unbind+Bind of the same SSRCs with traffic; Close; the same traffic after Close; Unbind after Close. Plus, for the four reader-side interceptors: a Read issued on a second goroutine (with or without an RTCP writer bound) that is in progress or parked when Close is called must return",
                 thorough="same"),
-    outside=["Close concurrent with traffic on another goroutine", "ticker fires during the sequence", "intervalpli, stats, packetdump, pacing, gcc, jitter buffer, flexfec interceptors", "release of per-stream memory (see C12)"],
+    outside=["Close racing with traffic at finer granularity than 'reader parked / not parked'", "two concurrent Close calls", "ticker fires during the sequence", "intervalpli, stats, packetdump, pacing, gcc, jitter buffer, flexfec interceptors", "release of per-stream memory (see C12)"],
     assumptions=["cooperative thread model", "tickers never fire unless fired by the harness"],
 )
 
